@@ -8,7 +8,12 @@ section / program header itself), spec = expected_notes.  Same for StabSection.i
 The program header and the .note / .stab section headers are the bytes of the Coq encoders
 encode_phdr / encode_shdr; every field of them that does not locate the extent (sh_flags, sh_addr,
 sh_link, sh_info, sh_addralign, sh_entsize; p_flags, p_vaddr, p_paddr, p_memsz, p_align) is drawn
-by the generator: the theorems C14_stabs_file_exact / C14_notes_file_exact quantify over them."""
+by the generator: the theorems C14_stabs_file_exact / C14_notes_file_exact quantify over them.
+Every generator is observed twice on the same ELFFile: consumed at once, and consumed one yield at a
+time while a consumer drawn by the generator uses the stream before each next() (seeks, data() of
+other sections, header re-reads, another note / stab walk in lock step).  The model carries the
+stream cursor; it is run under the cursor positions recorded at each resumption (theorems
+C14_notes_cursor_free / C14_stabs_cursor_free: the yields do not depend on them)."""
 import io, struct
 from tools.lib.framework import impl_call
 from tools.lib.sx import canon as sx_canon
@@ -28,7 +33,9 @@ LEVEL = {'text': 'Machine-checked theorems for unbounded inputs: iterating any w
                  'view; the six known descriptor kinds (GNU ABI tag, build id, gold version, GNU property list with '
                  'class-dependent padding, NT_PRPSINFO, NT_FILE) decode to their encoded fields; stab tables enumerate '
                  'exactly their 12-byte records whatever sh_entsize says (the section / program header fields other '
-                 'than offset and size are universally quantified in the file-level theorems); roundup (body regenerated from the live function) is the least multiple of 2^b above n. '
+                 'than offset and size are universally quantified in the file-level theorems); the model carries the '
+                 'stream cursor and the yields are proved independent of where the consumer leaves it between two '
+                 'yields (every read of a step is absolute or follows a seek of the same step); roundup (body regenerated from the live function) is the least multiple of 2^b above n. '
                  'The hand model is pinned to the code by the differential correspondence through real '
                  'NoteSection/NoteSegment/StabSection objects.',
          'design_ref': '4.14', 'technique': 'Coq proof (generic layout round trip, induction over the note list) + '
@@ -45,7 +52,9 @@ RULE = ('cases: abstract note extents drawn from the seeded PRNG (0..8 notes; na
         'non-zero garbage; extent placed mid-file or at EOF at a random (unaligned) offset; every header field that does '
         'not locate the extent is drawn (typical / 0 / 1 / maximum / random of the field width): sh_flags (without '
         'SHF_COMPRESSED), sh_addr, sh_link, sh_info, sh_addralign, sh_entsize, p_flags, p_vaddr, p_paddr, p_memsz, '
-        'p_align; stab tables of 0..20 records, and every count 0..5 under sh_entsize 0, 12, 20, 1, 6, 24, 13, the '
+        'p_align; stab records with n_type N_UNDF (unit headers, any n_desc) anywhere in the table; each walk is also consumed one yield at a time under a drawn consumer schedule (cyclic list of: seek '
+        'to a header / extent / EOF / past-EOF position, data() of .stab/.note/.shstrtab, section header re-read, a '
+        'second walk of the other view one note ahead or of the stab table in lock step); stab tables of 0..20 records, and every count 0..5 under sh_entsize 0, 12, 20, 1, 6, 24, 13, the '
         'table size, one more, the maximum; '
         'roundup on boundary values; a malformed stream (truncated extents, unterminated names, random bytes) outside '
         'the domain. distinct = hash(kind, abstract); non-trivial = >=2 notes, or a size with residue != 0 mod 4, or an '
@@ -70,6 +79,11 @@ def _hdrs(layout):
     if len(layout) >= 4:
         return layout[0], layout[1], list(layout[2]), list(layout[3])
     return layout[0], layout[1], DEFAULT_SHF, DEFAULT_PHF
+
+
+def _sched(layout):
+    """the consumer's schedule: the op performed on the stream before each next() (cyclic); [] = none"""
+    return list(layout[4]) if len(layout) >= 5 else []
 
 
 def plan(is64, nlen, slen, pre_pad, eof):
@@ -314,8 +328,30 @@ def gen(ctx):
     NOTE_ENTSIZES = (0, 0, 4, 12, 1)
     STAB_ENTSIZES = (0, 12, 20, 1, 24, 8, 13, 36)      # GNU as: 12 (ELF32), 20 (x86-64); others leave 0
 
+    def sched_pick(stabs=False):
+        """what the consumer does with the stream before each next() of the stepwise walk (cyclic): seek anywhere
+        (inside the headers, inside the extent, at / past EOF), read another section's data, re-read a section
+        header + name, advance another walk over the same file in lock step"""
+        ops = []
+        for _ in range(rng.choice([1, 1, 2, 3, 4])):
+            r = rng.random()
+            if r < 0.3:
+                ops.append(['seek', rng.choice([0, 1, 11, 12, 13, 52, 64, rng.randint(0, 400), rng.randint(0, 4000), 'end', 'end+5'])])
+            elif r < 0.5:
+                ops.append(['data', rng.choice(['.stab', '.note', '.shstrtab'])])
+            elif r < 0.6:
+                ops.append(['header', rng.randint(0, 3)])
+            elif r < 0.8:
+                ops.append(['other'])
+            elif r < 0.95:
+                ops.append(['note'] if stabs else ['stab'])
+            else:
+                ops.append(['none'])
+        return ops
+
     def layout_pick(is64, entsizes=NOTE_ENTSIZES):
-        return [rng.choice([0, 0, 1, 2, 3, 4, 5, 7]), rng.random() < 0.3, shf_pick(is64, entsizes), phf_pick(is64)]
+        return [rng.choice([0, 0, 1, 2, 3, 4, 5, 7]), rng.random() < 0.3, shf_pick(is64, entsizes), phf_pick(is64),
+                sched_pick(entsizes is STAB_ENTSIZES)]
 
     def cfgd(c):
         return (c[0], c[1], c[2], c[3])
@@ -336,6 +372,16 @@ def gen(ctx):
                              ([0, 0, 0, 0, 0, 1], [0, 0, 0, 1, 0])):
                 cases.append(('notes', [c, [[b'AB', b'\x55', 7, ['raw', b'xyz'], b'\x66'], [b'GNU', b'', 0x100, ['raw', b'12345'], b'\x77\x78\x79']],
                                         [2, False, shf, phf]]))
+    # --- the consumer's reads between yields: every kind of op alone, on a three-note extent and a four-record table
+    for le, is64 in _cfgs():
+        c = [le, is64, 'ET_DYN', 'EM_X86_64' if is64 else 'EM_386']
+        three = [[b'AB', b'\x55', 7, ['raw', b'xyz'], b'\x66'], [b'GNU', b'', 3, ['build', b'\x01\x02\x03\x04\x05'], b'\x77\x78\x79'],
+                 ['none', b'', 9, ['raw', b'\x09\x08'], b'\x01\x01']]
+        four = [[i, 0x24 + i, i, 0x100 + i, 0x8048000 + i] for i in range(4)]
+        for op in (['seek', 0], ['seek', 7], ['seek', 'end'], ['seek', 'end+5'], ['data', '.stab'], ['data', '.note'],
+                   ['data', '.shstrtab'], ['header', 1], ['other'], ['stab'], ['note'], ['none']):
+            cases.append(('notes', [c, three, [1, False, DEFAULT_SHF, DEFAULT_PHF, [op]]]))
+            cases.append(('stabs', [c, four, [1, False, DEFAULT_SHF, DEFAULT_PHF, [op]]]))
     # --- residue sweep: every (namesz, descsz) in 0..8 x 0..8, as the only note, the first of two, the last of two
     for ns in range(0, 9):
         for ds in range(0, 9):
@@ -382,8 +428,11 @@ def gen(ctx):
         cases.append(('notes', [c, [big, _gen_note(rng, cfgd(c))], layout_pick(c[1])]))
     # --- stabs: the header's sh_entsize (and sh_link, sh_info, sh_addralign, sh_flags, sh_addr) are free
     def stab_pick():
-        return [rng.choice([0, 1, 2 ** 32 - 1, rng.getrandbits(32)]), rng.getrandbits(8), rng.getrandbits(8),
-                rng.choice([0, 0xffff, rng.getrandbits(16)]), rng.choice([0, 2 ** 32 - 1, rng.getrandbits(32)])]
+        # n_type 0 is N_UNDF: the per-compilation-unit header whose n_desc counts that unit's stabs (any number of
+        # units per table, so n_desc says nothing about the table); 0x24 N_FUN, 0x64 N_SO, 0x84 N_SOL, 0x44 N_SLINE
+        return [rng.choice([0, 1, 2 ** 32 - 1, rng.getrandbits(32)]),
+                rng.choice([0, 0, 0x24, 0x64, 0x84, 0x44, 0xff, rng.getrandbits(8), rng.getrandbits(8)]), rng.getrandbits(8),
+                rng.choice([0, 1, 2, 3, 0xffff, rng.getrandbits(16), rng.getrandbits(4)]), rng.choice([0, 2 ** 32 - 1, rng.getrandbits(32)])]
     for le, is64 in _cfgs():
         top = 2 ** (64 if is64 else 32) - 1
         # every record count 0..5 under every notable entry size (0, the record size, GNU as's 20 for
@@ -393,7 +442,7 @@ def gen(ctx):
                 c = [le, is64, rng.choice(['ET_REL', 'ET_EXEC', 'ET_DYN']), rng.choice(list(EM))]
                 shf = shf_pick(is64, STAB_ENTSIZES)
                 shf[5] = ent
-                cases.append(('stabs', [c, [stab_pick() for _ in range(k)], [rng.choice([0, 1, 3]), rng.random() < 0.3, shf, DEFAULT_PHF]]))
+                cases.append(('stabs', [c, [stab_pick() for _ in range(k)], [rng.choice([0, 1, 3]), rng.random() < 0.3, shf, DEFAULT_PHF, sched_pick(True)]]))
         for k in [0, 1, 2, 3, 20] + [rng.randint(0, 12) for _ in range(6 * T)]:
             c = [le, is64, rng.choice(['ET_REL', 'ET_EXEC', 'ET_DYN', 'ET_CORE', 'raw']), rng.choice(list(EM))]
             cases.append(('stabs', [c, [stab_pick() for _ in range(k)], layout_pick(is64, STAB_ENTSIZES)]))
@@ -471,22 +520,93 @@ def _cfg_of_file(f):
     return [f.little_endian, f.elfclass == 64, et if isinstance(et, str) else '<raw>', em if isinstance(em, str) else '<raw>']
 
 
-def _impl_notes(img):
+class _Walker:
+    """another generator over the same stream that the consumer advances between two yields of the walk
+    under observation; restarted when exhausted, its own failures ignored"""
+    def __init__(self, make, ahead=0):
+        self.make = make
+        self.it = make()
+        for _ in range(ahead):
+            self.step()
+
+    def step(self):
+        try:
+            next(self.it)
+        except StopIteration:
+            self.it = self.make()
+        except Exception:       # noqa: a broken helper walk is not the observation
+            self.it = self.make()
+
+
+def _consumer_op(f, op, walkers):
+    """what a consumer may do with the file between two yields; every one of them moves the stream cursor"""
+    k = op[0]
+    if k == 'seek':
+        p = op[1]
+        if isinstance(p, str):          # 'end', 'end+5'
+            f.stream.seek(0, 2)
+            p = f.stream.tell() + (int(p[4:]) if len(p) > 3 else 0)
+        f.stream.seek(p)
+    elif k == 'data':
+        f.get_section_by_name(op[1]).data()
+    elif k == 'header':
+        f.get_section(op[1] % 4)        # re-reads section header and name
+    elif k in walkers:
+        walkers[k].step()
+
+
+def _stepwise(f, it, conv, sched, walkers):
+    """consume the generator one yield at a time; before every next() the consumer performs the next op of
+    the schedule (cyclically).  Returns the observation and the cursor positions at each resumption."""
+    out, tells, i = [], [], 0
+    while True:
+        try:
+            if sched:
+                _consumer_op(f, sched[i % len(sched)], walkers)
+            tells.append(f.stream.tell())
+        except Exception as e:      # noqa
+            return [out, ['err', 'consumer-' + type(e).__name__]], tells
+        try:
+            x = next(it)
+        except StopIteration:
+            return [out, 'none'], tells
+        except Exception as e:      # noqa: a generator that raises has yielded a prefix
+            return [out, ['err', type(e).__name__]], tells
+        out.append(conv(x))
+        i += 1
+
+
+def _impl_notes(img, sched=()):
+    """the two views consumed list()-style, then each consumed step by step under the schedule on the same
+    ELFFile; -> (observations, cfg, cursor schedules of the two stepwise walks)"""
     from elftools.elf.sections import NoteSection
     from elftools.elf.segments import NoteSegment
     f = _open(img)
     sec = f.get_section_by_name('.note')
     seg = next(f.iter_segments())
+    stab = f.get_section_by_name('.stab')
     assert isinstance(sec, NoteSection) and isinstance(seg, NoteSegment)
-    return [_collect(sec.iter_notes(), _onote), _collect(seg.iter_notes(), _onote)], _cfg_of_file(f)
+    obs = [_collect(sec.iter_notes(), _onote), _collect(seg.iter_notes(), _onote)]
+    tells = []
+    for view, other in ((sec, seg), (seg, sec)):
+        # 'other': the other view of the extent walked in lock step, one note ahead; 'stab': the stab table
+        walkers = {'other': _Walker(other.iter_notes, ahead=1), 'stab': _Walker(stab.iter_stabs)}
+        o, t = _stepwise(f, view.iter_notes(), _onote, list(sched), walkers)
+        obs.append(o)
+        tells.append(t)
+    return obs, _cfg_of_file(f), tells
 
 
-def _impl_stabs(img):
+def _impl_stabs(img, sched=()):
     from elftools.elf.sections import StabSection
     f = _open(img)
     sec = f.get_section_by_name('.stab')
+    note = f.get_section_by_name('.note')
     assert isinstance(sec, StabSection)
-    return _collect(sec.iter_stabs(), _stab)
+    obs = [_collect(sec.iter_stabs(), _stab)]
+    walkers = {'other': _Walker(sec.iter_stabs, ahead=1), 'stab': _Walker(sec.iter_stabs, ahead=2), 'note': _Walker(note.iter_notes)}
+    o, t = _stepwise(f, sec.iter_stabs(), _stab, list(sched), walkers)
+    return obs + [o], t
 
 
 def _bucket(v):
@@ -572,10 +692,13 @@ def evaluate(ctx, cases):
         reqs += [['enc_phdr', c[0], c[1], h_seg], ['enc_shdr', c[0], c[1], h_note], ['enc_shdr', c[0], c[1], h_stab],
                  ['wf_phdr', c[0], c[1], h_seg], ['wf_shdr', c[0], c[1], h_note], ['wf_shdr', c[0], c[1], h_stab]]
     hans = drv.batch(reqs)
-    # ---- pass 3: assemble images, ask the model and the expected observations
+    # ---- pass 3: assemble images, observe the implementation (this gives the cursor schedules of the stepwise
+    #      walks), then ask the model under the same schedules and the expected observations
     work = []
     reqs = []
     hpos = 0
+    def ok(x):          # ['ok', result] -> result
+        return x[1] if isinstance(x, list) and x and x[0] == 'ok' else x
     for i, (kind, a) in enumerate(cases):
         enc, wf = ans[2 * i], ans[2 * i + 1]
         if kind == 'roundup':
@@ -588,33 +711,42 @@ def evaluate(ctx, cases):
         img = mk_elf(c[0], c[1], ET[c[2]], EM[c[3]], nbytes, sbytes, pre_pad, eof, pl, ph_b, shn_b, shs_b)
         phoff, sh_note, sh_stab = pl['phoff'], pl['shoff'] + pl['shentsize'], pl['shoff'] + 2 * pl['shentsize']
         wf_h = bool(wf_p) and bool(wf_n) and bool(wf_s)
-        if kind == 'notes':
-            work.append(dict(img=img, wf=bool(wf) and wf_h, n=3, shf=shf, phf=phf))
-            reqs += [['section_notes', dcfg(c), img, sh_note], ['segment_notes', dcfg(c), img, phoff],
-                     ['expected', dcfg(c), pl['note_off'], a[1]]]
-        elif kind == 'malformed':
-            work.append(dict(img=img, n=2))
-            reqs += [['section_notes', dcfg(c), img, sh_note], ['segment_notes', dcfg(c), img, phoff]]
+        sched = _sched(a[2])
+        if kind in ('notes', 'malformed'):
+            got = impl_call(_impl_notes, img, sched)
+            # (the header names ELFFile reports are expected to be the generator's; if an enum edit in /repo makes
+            #  them differ, impl is compared with the spec for the generator's configuration and fails there)
+            impl, tells = (got[0], got[2]) if isinstance(got, tuple) else (got, [[], []])
+            w = dict(img=img, impl=impl, sched=sched, shf=shf, phf=phf)
+            reqs += [['section_notes', dcfg(c), img, sh_note, []], ['segment_notes', dcfg(c), img, phoff, []],
+                     ['section_notes', dcfg(c), img, sh_note, tells[0]], ['segment_notes', dcfg(c), img, phoff, tells[1]]]
+            if kind == 'notes':
+                w.update(wf=bool(wf) and wf_h, n=5)
+                reqs.append(['expected', dcfg(c), pl['note_off'], a[1]])
+            else:
+                w.update(n=4)
+            work.append(w)
         else:
-            work.append(dict(img=img, wf=bool(wf) and wf_h, n=2, shf=shf))
-            reqs += [['section_stabs', dcfg(c), img, sh_stab], ['expected_stabs', c[0], pl['stab_off'], a[1]]]
+            got = impl_call(_impl_stabs, img, sched)
+            impl, tells = got if isinstance(got, tuple) else (got, [])
+            work.append(dict(img=img, impl=impl, sched=sched, wf=bool(wf) and wf_h, n=3, shf=shf))
+            reqs += [['section_stabs', dcfg(c), img, sh_stab, []], ['section_stabs', dcfg(c), img, sh_stab, tells],
+                     ['expected_stabs', c[0], pl['stab_off'], a[1]]]
     ans2 = drv.batch(reqs)
     pos = 0
     for (kind, a), w in zip(cases, work):
         r = ans2[pos:pos + w['n']]
         pos += w['n']
         ctx.bump('kind', kind)
+        if kind != 'roundup':
+            for op in (w['sched'] or [['none']]):
+                ctx.bump('consumer_op_' + kind, op[0] if op[0] != 'data' else 'data ' + op[1])
         if kind == 'notes':
             c, notes = a[0], a[1]
             eof = a[2][1]
-            got = impl_call(_impl_notes, w['img'])
-            # (the header names ELFFile reports are expected to be the generator's; if an enum edit in /repo makes
-            #  them differ, impl is compared with the spec for the generator's configuration and fails there)
-            impl = got[0] if isinstance(got, tuple) else got
-            def ok(x):          # ['ok', result] -> result
-                return x[1] if isinstance(x, list) and x and x[0] == 'ok' else x
-            model = [ok(r[0]), ok(r[1])]
-            spec = [r[2], r[2]]
+            impl = w['impl']
+            model = [ok(x) for x in r[:4]]
+            spec = [r[4]] * 4
             ctx.bump('notes_per_extent', len(notes) if len(notes) < 6 else '6+')
             ctx.bump('cfg', '%s%d%s' % ('LE' if c[0] else 'BE', 64 if c[1] else 32, '-core' if c[2] == 'ET_CORE' else ''))
             ctx.bump('placement', 'eof' if eof else 'mid')
@@ -632,6 +764,8 @@ def evaluate(ctx, cases):
                 if desc[0] == 'props':
                     ctx.bump('props_per_list', len(desc[1]) if len(desc[1]) < 4 else '4+')
             key = 'notes'
+            if isinstance(impl, list) and len(impl) == 4 and sx_canon(impl[:2]) == sx_canon(spec[:2]) and sx_canon(impl) != sx_canon(spec):
+                key = 'notes-interleaved'       # right when consumed at once, wrong when the consumer reads in between
             if _final_header_only(notes) and isinstance(impl, list) and isinstance(spec[0], list):
                 # the signature of the (repaired) loop-guard defect: everything right except that the last note is missing
                 dropped = [[v[0][:-1], v[1]] for v in spec]
@@ -639,16 +773,17 @@ def evaluate(ctx, cases):
                     key = FINAL_NOTE_KEY
             ctx.record(kind, a, impl=impl, spec=spec, model=model, in_domain=w['wf'], nontrivial=_nontrivial(notes), key=key)
         elif kind == 'malformed':
-            got = impl_call(_impl_notes, w['img'])
-            impl = got[0] if isinstance(got, tuple) else got
-            def ok(x):
-                return x[1] if isinstance(x, list) and x and x[0] == 'ok' else x
-            model = [ok(r[0]), ok(r[1])]
+            impl = w['impl']
+            model = [ok(x) for x in r[:4]]
             ctx.bump('malformed', a[3])
             ctx.record(kind, a, impl=impl, spec=model, model=model, in_domain=False, nontrivial=True, key='malformed')
         elif kind == 'stabs':
-            impl = impl_call(_impl_stabs, w['img'])
-            model = r[0][1] if isinstance(r[0], list) and r[0] and r[0][0] == 'ok' else r[0]
+            impl = w['impl']
+            model = [ok(r[0]), ok(r[1])]
+            spec = [r[2], r[2]]
+            key = 'stabs'
+            if isinstance(impl, list) and len(impl) == 2 and sx_canon(impl[0]) == sx_canon(spec[0]) and sx_canon(impl) != sx_canon(spec):
+                key = 'stabs-interleaved'
             ctx.bump('stabs_per_table', len(a[1]) if len(a[1]) < 6 else '6+')
             ent = w['shf'][5]
             ctx.bump('stab_sh_entsize', ent if ent in (0, 1, 12, 20) else 'divides' if ent and (12 * len(a[1])) % ent == 0
@@ -656,7 +791,7 @@ def evaluate(ctx, cases):
             ctx.bump('stab_sh_link', _bucket(w['shf'][2]))
             ctx.bump('stab_sh_info', _bucket(w['shf'][3]))
             ctx.bump('stab_sh_addralign', _bucket(w['shf'][4]))
-            ctx.record(kind, a, impl=impl, spec=r[1], model=model, in_domain=w['wf'], nontrivial=len(a[1]) >= 2, key='stabs')
+            ctx.record(kind, a, impl=impl, spec=spec, model=model, in_domain=w['wf'], nontrivial=len(a[1]) >= 2, key=key)
         else:
             n, b = a
             impl = impl_call(roundup, n, b)
